@@ -483,14 +483,25 @@ fn oracle(scn: &ReqRep, g: &World, out: &Outcome, ids: &Ids, viol: &mut Vec<RVio
             }
         }
     }
+    // (a tag handed out again after its requestor has gone is judged by what happens to late
+    // replies, below; two requestors that are connected at the same time must differ)
+    let life = |j: usize| -> Option<(u64, u64)> {
+        let st = ids.q_stream[j]?;
+        let from = g.streams[st].sent_at?;
+        let to = g.streams[st].end_clock.or(g.streams[st].depart_clock).unwrap_or(u64::MAX);
+        Some((from, to))
+    };
     for j in 0..nq {
         for j2 in 0..j {
-            if tag_of[j].is_some() && tag_of[j] == tag_of[j2] {
+            let overlap = match (life(j), life(j2)) {
+                (Some((a, b)), Some((c, d))) => a <= d && c <= b,
+                _ => true,
+            };
+            if overlap && tag_of[j].is_some() && tag_of[j] == tag_of[j2] {
                 viol.push(RViol { prop: p02, clause: "reqrep:request-bad-tag".into(), msg: format!("requestors {j2} and {j} were given the same routing tag {:?}", tag_of[j]) });
             }
         }
     }
-    let requestor_with_tag = |t: &str| -> Option<usize> { tag_of.iter().position(|x| x.as_deref() == Some(t)) };
 
     // ---- requests: at most once, in order, correctly tagged; exactly once under a stable replier
     // all request deliveries in global order
@@ -599,7 +610,14 @@ fn oracle(scn: &ReqRep, g: &World, out: &Outcome, ids: &Ids, viol: &mut Vec<RVio
             for (c, f) in &g.streams[st].yielded {
                 if let Frame::Message(_) = f {
                     let (tag, stripped) = strip_tag(f);
-                    if let Some(j) = tag.as_deref().and_then(requestor_with_tag) {
+                    // the requestor that held this tag when the reply was emitted (a tag may be
+                    // handed out again after its requestor has gone)
+                    let holder = |t: &str| -> Option<usize> {
+                        let mut cands = (0..nq).filter(|j| tag_of[*j].as_deref() == Some(t));
+                        let first = cands.next()?;
+                        std::iter::once(first).chain(cands).filter(|j| life(*j).map_or(false, |(a, b)| a <= *c && *c <= b)).last().or(Some(first))
+                    };
+                    if let Some(j) = tag.as_deref().and_then(holder) {
                         {
                             if let (Some(qs), Some(qt)) = (ids.q_sink[j], ids.q_stream[j]) {
                                 let adopted = g.streams[qt].first_touch.map_or(false, |t| t < *c);
